@@ -172,3 +172,16 @@ FUNCTIONS = [R + "LazyVariable.eval", R + "LazyValue.eval", R + "get_function_fr
 ASSUMPTIONS = ["str.split('.') and getattr are uninterpreted functions (deterministic, otherwise unconstrained); getattr may raise AttributeError", 'inspect.currentframe / f_back / f_locals / f_globals are uninterpreted functions of the frame',
                'calls of opaque (user / library) callables return unconstrained values and do not touch modelled state',
                'LazyCall.eval: evaluating the argument objects does not modify this LazyCall (arguments form a tree)']
+
+# ---- identity of lazy call objects (C02 / C12): __eq__ compares exactly the constructor fields, __hash__ never raises
+REG.declare_class(R + "LazyOperator", {"op": "any", "args": "any", "symbol": "str"})
+for _cls, _fields in (("LazyValue", ["value", "lexeme"]), ("LazyCall", ["callee", "args", "kwargs"]), ("LazyOperator", ["symbol", "args"])):
+    _conj = " and ".join(f"self.{f} == other.{f}" for f in _fields)
+    REG.contract(R + _cls + ".__eq__", params={"other": R + _cls}, returns="bool", tags=["C02", "C12"],
+                 ensures=[f"result == ({_conj})"])
+REG.contract(R + "LazyVariable.__eq__", params={"other": R + "LazyVariable"}, returns="bool", tags=["C02", "C12"],
+             ensures=["result == (self.name == other.name)"])
+REG.contract(R + "LazyValue.__hash__", returns="int", tags=["C02"], ensures=["True"])
+REG.contract(R + "LazyVariable.__hash__", returns="int", tags=["C02"], ensures=["True"])
+FUNCTIONS += [R + c + ".__eq__" for c in ("LazyValue", "LazyCall", "LazyOperator", "LazyVariable")] + \
+             [R + "LazyValue.__hash__", R + "LazyVariable.__hash__"]
